@@ -363,7 +363,9 @@ func (t *HtmlScanner) readTag() (tok *Token, err error) {
 			// <input value=yes> -- 读取到 '=' 结束
 
 			if unicode.IsSpace(ch) {
-				attrName.WriteRune(' ')
+				if !strings.HasSuffix(attrName.String(), " ") {
+					attrName.WriteRune(' ') // 连续空白只记一个
+				}
 			} else if ch == '>' {
 				name := strings.TrimSuffix(attrName.String(), " ")
 				attr := &Attr{
